@@ -9,12 +9,13 @@ C: harness/cmd/codec runs every encoder and decoder of every table type on every
    seeded random ones, on constructed forms and on forms decoded from documents of every type) and
    every trace is validated by TLC against Form.tla (TrForm)."""
 import json, os, re, shutil
+from concurrent.futures import ThreadPoolExecutor
 import verif
 import codeccommon as cc
 
 MCFORM_CFG = '''CONSTANTS
   Tier = "quick"
-  Dev = {}
+  Dev = %(dev)s
   MaxOps = %(maxops)d
 SPECIFICATION Spec
 INVARIANT TypeOK
@@ -25,16 +26,23 @@ INVARIANT C19_GetReportsIt
 INVARIANT C19_SubmitShape
 INVARIANT C19_SubmitValuesDefined
 INVARIANT C19_DecodedFormsUsable
+INVARIANT C19_SubmitLossless
+INVARIANT C19_NoPanic
+INVARIANT C19_CandidatesAcceptable
 PROPERTY C19_FieldsStable
 PROPERTY C19_TypeStable
 CHECK_DEADLOCK FALSE
 '''
 FORM_PROPS = ["C19_StoredFits", "C19_SetIffFits", "C19_GetAfterSet", "C19_GetReportsIt", "C19_SubmitShape",
-              "C19_SubmitValuesDefined", "C19_DecodedFormsUsable", "C19_FieldsStable", "C19_TypeStable"]
+              "C19_SubmitValuesDefined", "C19_DecodedFormsUsable", "C19_SubmitLossless", "C19_NoPanic",
+              "C19_CandidatesAcceptable", "C19_AmbiguityCovered", "C19_FieldsStable", "C19_TypeStable"]
+# named deviations: the design check must FAIL with each of them (non-vacuity): (module, deviation, what must break)
+DEVIATIONS = [("MCForm", "ScannerLimit", "C19_SubmitLossless"), ("MCForm", "EncodeByFieldType", "C19_NoPanic"),
+              ("MCCodec", "PanicIsAnError", "Assumption")]
 MCCODEC_CFG = '''CONSTANTS
   Tier = "quick"
-  Dev = {}
-  MaxLen = 5
+  Dev = %(dev)s
+  MaxLen = %(maxlen)d
   Modes = {"automaton"}
 SPECIFICATION Spec
 INVARIANT C13_AutomatonExact
@@ -53,7 +61,7 @@ UNCOVERED = {
 
 def emit_form(ctx):
     r = ctx.tlc("EmitForm", 'CONSTANTS\n  Tier = "quick"\n  Dev = {}\n  MaxOps = 5\nINIT EInit\nNEXT ENext\n',
-                workers=1, timeout=300, name="EmitForm")
+                workers=1, timeout=300, name="EmitForm", heap="1g")
     if not r.ok:
         raise verif.Undecided("EmitForm failed:\n" + r.out[-3000:])
     p = ctx.path("formcfg.json")
@@ -64,7 +72,7 @@ def emit_form(ctx):
 
 def validate_form(ctx, trace, name="TrForm"):
     cfg = 'CONSTANTS\n  Tier = "quick"\n  Dev = {}\n  MaxOps = 99\nSPECIFICATION TSpec\nCONSTRAINT HW\nPOSTCONDITION Accepted\nCHECK_DEADLOCK FALSE\n'
-    r = ctx.tlc("TrForm", cfg, files={"trace.ndjson": trace}, workers=1, timeout=1200, xss=True, name=name)
+    r = ctx.tlc("TrForm", cfg, files={"trace.ndjson": trace}, workers=1, timeout=1200, xss=True, name=name, heap="3g")
     rejected = {}
     body = r.printed("REJECTED")
     if body:
@@ -74,6 +82,22 @@ def validate_form(ctx, trace, name="TrForm"):
         raise verif.Undecided("form trace validation failed to run:\n" + r.out[-3000:])
     shutil.rmtree(r.dir, ignore_errors=True)
     return rejected, r
+
+
+def deviation_rejected(ctx, module, dev, breaks):
+    """non-vacuity: with the named deviation switched on the design check must fail on the property it is meant for"""
+    if module == "MCForm":
+        cfg = MCFORM_CFG % dict(maxops=2, dev='{"%s"}' % dev)
+    else:
+        cfg = MCCODEC_CFG % dict(maxlen=2, dev='{"%s"}' % dev)
+    r = ctx.tlc(module, cfg, workers=2, timeout=600, name="%s_%s" % (module, dev), heap="1g")
+    hit = (breaks in r.violated) if breaks != "Assumption" else any("Assumption" in e and "is false" in e for e in r.errors)
+    out = r.out[-1500:]
+    shutil.rmtree(r.dir, ignore_errors=True)
+    if not hit:
+        raise verif.Undecided("design check %s ACCEPTS the deviation %s (expected %s to fail): the property is vacuous\n%s" % (
+            module, dev, breaks, out))
+    return dev
 
 
 def drive_form(ctx, sym, formcfg, scen="-", n=300, name="formtrace"):
@@ -93,39 +117,61 @@ def report_form(ctx, trace, rejected):
     for t, hw in sorted(rejected.items()):
         rej = [e for e in trs[t] if e["_line"] == hw]
         e = rej[0] if rej else {}
-        site = re.sub(r"\(0x[0-9a-f]+.*?\)", "()", e.get("panic", ""))[:160]
+        # grouping key: the panic message and the library frame, without the argument dump (addresses differ per run)
+        site = re.sub(r"(@ [^\s(]+)\(.*\) (/\S+?:\d+).*", r"\1 \2", e.get("panic", ""))
+        site = re.sub(r"\(0x[0-9a-f]+.*?\)", "()", site)[:200]
         groups.setdefault((e.get("ev"), site), []).append((t, hw, e))
     for (ev, site), members in sorted(groups.items(), key=lambda kv: kv[1][0][0])[:8]:
         members.sort(key=lambda m: len(trs[m[0]]))
         t, hw, e = members[0]
-        ctx.violation("C19: data form life cycle: operation '%s' is not a step of Form.tla%s after %s (%d traces in this class): %s" % (
-            ev, (" [" + site + "]") if site else "", json.dumps([x for x in meta[t]["ops"]][:6])[:300], len(members),
+        form = ", ".join("%s %s%s%s" % (f["ft"], f["var"] or "''", " required" if f["req"] else "", (" = " + "|".join(f["def"])) if f["def"] else "")
+                         for f in meta[t]["cfg"])
+        ctx.violation("C19: data form life cycle: on the form [%s] operation '%s' is not a step of Form.tla%s after %s (%d traces in this class): %s" % (
+            form[:300], ev, (" [" + site + "]") if site else "", json.dumps([x for x in meta[t]["ops"]][:6])[:300], len(members),
             json.dumps({k: v for k, v in e.items() if k not in ("_line", "toks")})[:400]),
             {"family": "form", "scenario": meta[t], "trace": trs[t], "rejected_line": hw, "rejected_event": e})
     return len(groups)
 
 
-def selftest_form(ctx, trace):
-    """corrupt accepted form traces: flip a Set's ok, change a Get's value, drop a submitted field, inject a panic"""
+def selftest_form(ctx, trace, rejected=()):
+    """corrupt accepted form traces: flip a Set's ok, change a Get's value, drop a submitted field, inject a panic;
+    cut the lines of a submitted long text after the first one (what a scanner with a token limit does); make an
+    operation on a form with an ambiguous variable panic"""
     evs = verif.read_ndjson(trace)
     trs = verif.split_traces(evs)
 
     def strip(tr):
         return [{k: v for k, v in e.items() if k != "_line"} for e in tr]
-    base = None
+
+    def clean(tr):
+        return all(e.get("panic", "") == "" for e in tr)
+    base = longtr = ambtr = None
     for t, tr in trs.items():
+        if t in rejected or not clean(tr):
+            continue
         kinds = [e["ev"] for e in tr]
-        if "set" in kinds and "get" in kinds and "submit" in kinds and all(e.get("panic", "") == "" for e in tr) \
+        if base is None and "set" in kinds and "get" in kinds and "submit" in kinds \
+                and len({f["var"] for f in tr[0]["cfg"]}) == len(tr[0]["cfg"]) \
                 and any(e["ev"] == "get" and e["ok"] and e["tv"]["v"] for e in tr) \
                 and any(e["ev"] == "submit" and e["fields"] for e in tr):
             base = strip(tr)
-            break
-    if base is None:
-        raise verif.Undecided("form binding self-test: no suitable trace")
-    muts = [("unchanged", base)]
+        if longtr is None and any(e["ev"] == "submit" and any(f["ft"] == "text-multi" and len(f["vals"]) >= 3 and
+                                                               any(x.startswith("L_") for x in f["vals"]) and
+                                                               sum(g["var"] == f["var"] for g in tr[0]["cfg"]) == 1
+                                                               for f in e["fields"]) for e in tr):
+            longtr = strip(tr)
+        if ambtr is None and "submit" in kinds and len({f["var"] for f in tr[0]["cfg"]}) < len(tr[0]["cfg"]) \
+                and any(f["ft"] != "fixed" and sum(g["var"] == f["var"] for g in tr[0]["cfg"]) > 1 for f in tr[0]["cfg"]):
+            ambtr = strip(tr)
+    if base is None or ((longtr is None or ambtr is None) and not rejected):
+        raise verif.Undecided("form binding self-test: no suitable trace (plain %s, long text-multi submission %s, ambiguous variable %s)" % (
+            base is not None, longtr is not None, ambtr is not None))
+    # (when the code under test breaks every candidate trace the mutant is skipped: the run has rejections of its own)
+    muts = [("unchanged", base)] + ([("unchanged (long text)", longtr)] if longtr else []) + ([("unchanged (ambiguous variable)", ambtr)] if ambtr else [])
+    nbase = len(muts)
 
-    def mut(name, f):
-        m = json.loads(json.dumps(base))
+    def mut(name, f, of=None):
+        m = json.loads(json.dumps(of or base))
         f(m)
         muts.append((name, m))
     first = lambda m, ev, cond=lambda e: True: [e for e in m if e["ev"] == ev and cond(e)][0]
@@ -133,6 +179,16 @@ def selftest_form(ctx, trace):
     mut("get value changed", lambda m: first(m, "get", lambda e: e["ok"] and e["tv"]["v"])["tv"].__setitem__("v", ["S_corrupt"]))
     mut("submitted field dropped", lambda m: first(m, "submit", lambda e: e["fields"])["fields"].pop())
     mut("panic injected", lambda m: m[-1].__setitem__("panic", "panic: injected"))
+
+    def cut_lines(m):
+        e = first(m, "submit", lambda e: any(f["ft"] == "text-multi" and len(f["vals"]) >= 3 for f in e["fields"]))
+        f = [f for f in e["fields"] if f["ft"] == "text-multi" and len(f["vals"]) >= 3][0]
+        k = [i for i, x in enumerate(f["vals"]) if x.startswith("L_")][0]
+        f["vals"] = f["def"] = f["vals"][:k]
+    if longtr:
+        mut("lines of a long text cut", cut_lines, of=longtr)
+    if ambtr:
+        mut("panic on an ambiguous variable", lambda m: first(m, "submit").__setitem__("panic", "panic: injected"), of=ambtr)
     p = ctx.path("formself.ndjson")
     line = 0
     with open(p, "w") as f:
@@ -143,33 +199,46 @@ def selftest_form(ctx, trace):
                 f.write(json.dumps(e) + "\n")
             line += len(m)
     rej, _ = validate_form(ctx, p, name="TrFormSelf")
-    if 1 in rej:
-        raise verif.Undecided("form binding self-test: the unchanged trace was rejected")
-    missed = [muts[k - 1][0] for k in range(2, len(muts) + 1) if k not in rej]
+    if any(k in rej for k in range(1, nbase + 1)):
+        raise verif.Undecided("form binding self-test: an unchanged trace was rejected (%s)" % sorted(rej))
+    missed = [muts[k - 1][0] for k in range(nbase + 1, len(muts) + 1) if k not in rej]
     if missed:
         raise verif.Undecided("form binding self-test: corrupted traces ACCEPTED: %s" % missed)
-    return len(muts) - 1
+    return len(muts) - nbase
 
 
-def selftest_reuse(ctx, obs, tier):
+def selftest_extra(ctx, obs, tier, rejected=()):
     """corrupt an accepted used-receiver scenario: a leaf of the reused view that comes from neither document
-    (law Reuse), a leaf that the second document sets and the reused view lost (Reuse), a recorded panic (NoFailure)"""
-    base = None
+    (law Reuse), a leaf that the second document sets and the reused view lost (Reuse), a recorded panic (NoFailure);
+    an accepted value with a long text: the text comes back shorter in every view (RoundTrip);
+    an accepted value with a time the wire format cannot carry, refused with an error: the refusal becomes a
+    panic (NoFailure) - while the recorded refusal itself must be accepted"""
+    base = longo = leno = None
+    longs = ('"L_65536"', '"L_a_65536_b"')
     with open(obs) as f:
         for l in f:
-            if '"ty": "reuse"' not in l and '"ty":"reuse"' not in l:
+            if longo is None and '"ty":"reuse"' not in l and any(x in l for x in longs):
+                o = json.loads(l)
+                if o["ty"] not in ("shape", "reuse", "form") and o["dec"] and all(d["err"] == "" for d in o["dec"]) \
+                        and any(v in ("L_65536", "L_a_65536_b") for v in o["v"].values() if isinstance(v, str)):
+                    longo = o
+            if leno is None and '"f":"error"' in l and '"ty":"reuse' not in l and '"ty":"shape"' not in l:
+                o = json.loads(l)
+                if all(e["err"] == "" for e in o["enc"]) and o["dec"] and all(d["f"] == "error" for d in o["dec"]):
+                    leno = o
+            if base is not None or ('"ty": "reuse"' not in l and '"ty":"reuse"' not in l):
                 continue
             o = json.loads(l)
             views = {d["p"]: d for d in o["dec"]}
-            if len(views) == 8 and all(d["err"] == "" and d["val"].get("outcome") == "value" for d in o["dec"]):
+            if len(views) == 10 and all(d["err"] == "" and d["val"].get("outcome") == "value" for d in o["dec"]):
                 lv = {w: views["bytes/" + w]["val"]["leaves"] for w in ("zero", "fresh1", "fresh2", "reused")}
                 k = [k for k in sorted(lv["reused"]) if lv["fresh2"][k] != lv["zero"][k] and lv["fresh2"][k] != lv["fresh1"][k]
                      and lv["reused"][k] == lv["fresh2"][k] and isinstance(lv["reused"][k][0], str)]
                 if k:
                     base, leaf = o, k[0]
-                    break
-    if base is None:
-        raise verif.Undecided("used-receiver self-test: no clean scenario to corrupt")
+    if base is None or ((longo is None or leno is None) and not rejected):
+        raise verif.Undecided("self-test: no clean observation to corrupt (used receiver %s, long text %s, refused time %s)" % (
+            base is not None, longo is not None, leno is not None))
     muts = [("unchanged", json.loads(json.dumps(base)))]
 
     def mut(name, f):
@@ -178,20 +247,44 @@ def selftest_reuse(ctx, obs, tier):
         muts.append((name, m))
     mut("foreign leaf", lambda v: v["bytes/reused"]["val"]["leaves"].__setitem__(leaf, ["S_corrupt"]))
     mut("lost leaf", lambda v: v["tokens/reused"]["val"]["leaves"].__setitem__(leaf, v["tokens/fresh1"]["val"]["leaves"][leaf]))
-    mut("panic recorded", lambda v: v["bytes/reused"].__setitem__("err", "panic: injected"))
+    mut("panic recorded", lambda v: (v["bytes/reused"].__setitem__("err", "panic: injected"), v["bytes/reused"].__setitem__("f", "panic")))
+    expect, unchanged = {2: "Reuse", 3: "Reuse", 4: "NoFailure"}, [1]
+    # (when the code under test breaks every candidate the mutant is skipped: the run has rejections of its own)
+    if longo is not None:
+        # long text: every view returns the short text "S_a" in its place
+        lf = [k for k, v in longo["v"].items() if v in ("L_65536", "L_a_65536_b")][0]
+        m = json.loads(json.dumps(longo))
+        muts.append(("unchanged (long text)", json.loads(json.dumps(longo))))
+        unchanged.append(len(muts))
+        for d in m["dec"]:
+            if lf in d["val"]:
+                d["val"][lf] = "S_a"
+        muts.append(("long text cut", m))
+        expect[len(muts)] = "RoundTrip"
+    if leno is not None:
+        # a time the format cannot carry: the refusal is fine, a panic is not
+        muts.append(("unchanged (refused time)", json.loads(json.dumps(leno))))
+        unchanged.append(len(muts))
+        m = json.loads(json.dumps(leno))
+        m["dec"][0]["err"], m["dec"][0]["f"] = "panic: injected", "panic"
+        muts.append(("refusal turned into a panic", m))
+        expect[len(muts)] = "NoFailure"
+    for _, m in muts:
+        for e in m["enc"]:
+            e["tl"] = 1
     po, pt = ctx.path("selfreuse.ndjson"), ctx.path("selfreuse.tls.ndjson")
     with open(po, "w") as f:
         for _, m in muts:
             f.write(json.dumps(m) + "\n")
     with open(pt, "w") as f:
         f.write(json.dumps({"ev": "tl", "id": 1, "toks": [{"k": "s", "n": "x", "a": []}, {"k": "e", "n": "x", "a": []}]}) + "\n")
-    rej, _, _ = cc.validate(ctx, po, pt, tier=tier, name="TrCodecSelfReuse", timeout=300)
-    if 1 in rej:
-        raise verif.Undecided("used-receiver self-test: the unchanged scenario was rejected: %s" % rej[1])
-    expect = {2: "Reuse", 3: "Reuse", 4: "NoFailure"}
+    rej, _, _ = cc.validate(ctx, po, pt, tier=tier, name="TrCodecSelfReuse", timeout=300, heap="1g")
+    for k in unchanged:
+        if k in rej:
+            raise verif.Undecided("self-test: the %s observation was rejected: %s" % (muts[k - 1][0], rej[k]))
     missed = [muts[k - 1][0] for k, law in expect.items() if law not in rej.get(k, [])]
     if missed:
-        raise verif.Undecided("used-receiver self-test: corrupted scenarios ACCEPTED: %s (rejections %s)" % (missed, rej))
+        raise verif.Undecided("self-test: corrupted observations ACCEPTED: %s (rejections %s)" % (missed, rej))
     return len(expect)
 
 
@@ -222,7 +315,7 @@ def discount_known(ctx, obs, tls, rej, tier):
     with open(p, "w") as fh:
         for i in order:
             fh.write(json.dumps(cand[i][0]) + "\n")
-    rej2, _, _ = cc.validate(ctx, p, tls, tier=tier, name="TrCodecKnown", dev={f["deviation"] for _, f in cand.values()})
+    rej2, _, _ = cc.validate(ctx, p, tls, tier=tier, name="TrCodecKnown", dev={f["deviation"] for _, f in cand.values()}, heap="1g")
     done = set()
     for k, i in enumerate(order, 1):
         if k not in rej2:
@@ -233,12 +326,25 @@ def discount_known(ctx, obs, tls, rej, tier):
 
 def run(ctx):
     quick = ctx.tier == "quick"
-    mcf = ctx.model_check("MCForm", MCFORM_CFG % dict(maxops=2 if quick else 3), FORM_PROPS, workers=6 if quick else 12,
-                          timeout=1500)
-    mcc = ctx.model_check("MCCodec", MCCODEC_CFG, ["C13_AutomatonExact", "C13_AutomatonAgreesWithFunction", "C19_TimeNamesSound", "C19_ReuseLawSane"], workers=4,
-                          timeout=600)
-    formcfg = emit_form(ctx)
     tier = ctx.tier
+    # independent TLC runs, the build and the drivers run side by side (each in its own scratch directory);
+    # verdicts are only drawn after every design check has passed
+    ex = ThreadPoolExecutor(max_workers=10)
+    try:
+        return _run(ctx, ex, quick, tier)
+    finally:
+        ex.shutdown(wait=True, cancel_futures=True)
+
+
+def _run(ctx, ex, quick, tier):
+    f_build = ex.submit(ctx.go_build, "codec")
+    f_mcf = ex.submit(ctx.model_check, "MCForm", MCFORM_CFG % dict(maxops=2 if quick else 3, dev="{}"), FORM_PROPS,
+                      workers=6 if quick else 12, timeout=1500, heap="3g" if quick else "8g")
+    f_mcc = ex.submit(ctx.model_check, "MCCodec", MCCODEC_CFG % dict(maxlen=5, dev="{}"),
+                      ["C13_AutomatonExact", "C13_AutomatonAgreesWithFunction", "C19_TimeNamesSound", "C19_ReuseLawSane",
+                       "C19_LenientLawSane", "C19_LongClosed"], workers=4, timeout=600, heap="2g")
+    f_dev = [ex.submit(deviation_rejected, ctx, m, d, b) for m, d, b in DEVIATIONS]
+    f_formcfg = ex.submit(emit_form, ctx)
     form_scen = "-"
     if ctx.replay:
         case = json.load(open(ctx.replay))["case"]
@@ -257,30 +363,53 @@ def run(ctx):
         types = sorted(counts)
     else:
         sym, vec, counts = cc.emit(ctx, "C19All", tier=tier)
-    # ---- codec laws on the table
-    obs, tls, summ = cc.drive(ctx, sym, vec)
-    rej, rtl, r = cc.validate(ctx, obs, tls, tier=tier)
+    f_build.result()
+    formcfg = f_formcfg.result()
+    nconfigs = len(json.load(open(formcfg))["configs"])
+    # ---- the real code: codec laws on the table, and the data form life cycle (random part: the same number of
+    # sequences in total whatever the number of configurations)
+    f_drive = ex.submit(cc.drive, ctx, sym, vec)
+    f_fdrive = ex.submit(drive_form, ctx, sym, formcfg, form_scen, max(40, (1200 if quick else 12000) // nconfigs)) \
+        if form_scen is not None else None
+    obs, tls, summ = f_drive.result()
+    f_val = ex.submit(cc.validate, ctx, obs, tls, tier)
+    fsumm, frej, fr, nfself, nfviol, ftrace = {"traces": 0, "events": 0, "distinct": 0, "samples": [], "extra": {}}, {}, None, 0, 0, None
+    f_fval = None
+    if f_fdrive is not None:
+        ftrace, fsumm = f_fdrive.result()
+        f_fval = ex.submit(validate_form, ctx, ftrace)
+    # ---- design checks: all of them must have passed before anything is said about the code
+    mcf, mcc = f_mcf.result(), f_mcc.result()
+    devs = [f.result() for f in f_dev]
+    ctx.log("non-vacuity: the design check rejects each of the deviations %s" % ", ".join(devs))
+    rej, rtl, r = f_val.result()
     ctx.log("TLC decided %d observations / %d distinct token lists: %d rejected (%d states, %.1fs)" % (
         r.checked_obs, r.checked_tls, len(rej), r.distinct, r.wall))
     if not ctx.replay and r.checked_obs != sum(counts.values()):
         raise verif.Undecided("observations %d != vectors emitted %d" % (r.checked_obs, sum(counts.values())))
+    f_self = [ex.submit(cc.selftest_binding, ctx, obs, tls, tier), ex.submit(selftest_extra, ctx, obs, tier, rej),
+              ex.submit(cc.selftest_kept, ctx, obs, tier, rej)] if not ctx.replay else []
+    if f_fval is not None:
+        frej, fr = f_fval.result()
+        ctx.log("TLC validated %d form traces / %d events: %d rejected (%d states, %.1fs)" % (
+            fsumm["traces"], fsumm["events"], len(frej), fr.distinct, fr.wall))
+        if not ctx.replay and fsumm["traces"] - len(frej) > 10:
+            f_self.append(ex.submit(selftest_form, ctx, ftrace, frej))
     known = discount_known(ctx, obs, tls, rej, tier)
     rej_left = {i: l for i, l in rej.items() if i not in known}
     nviol = cc.report(ctx, sym, obs, tls, rej_left, rtl, "C19", limit=30)
-    nself = (cc.selftest_binding(ctx, obs, tls, tier=tier) + selftest_reuse(ctx, obs, tier)) if not ctx.replay else 0
-    # ---- data form life cycle
-    fsumm, frej, fr, nfself, nfviol = {"traces": 0, "events": 0, "distinct": 0, "samples": [], "extra": {}}, {}, None, 0, 0
-    if form_scen is not None:
-        ftrace, fsumm = drive_form(ctx, sym, formcfg, scen=form_scen, n=300 if quick else 3000)
-        frej, fr = validate_form(ctx, ftrace)
-        ctx.log("TLC validated %d form traces / %d events: %d rejected (%d states, %.1fs)" % (
-            fsumm["traces"], fsumm["events"], len(frej), fr.distinct, fr.wall))
+    if ftrace is not None:
         nfviol = report_form(ctx, ftrace, frej)
-        if not ctx.replay:
-            ok = [t for t in range(1, fsumm["traces"] + 1) if t not in frej]
-            if ok:
-                nfself = selftest_form(ctx, ftrace) if len(ok) > 10 else 0
+    nself = sum(f.result() for f in f_self)
     covered = sorted(t for t in counts if t not in ("shape", "reuse"))
+    nlong = nxtime = 0
+    if not ctx.replay:
+        with open(vec) as fh:
+            for l in fh:
+                if '"ty":"reuse"' in l or '"ty":"shape"' in l:
+                    continue
+                nlong += '"L_' in l
+                nxtime += bool(re.search(r'"T_(y|ns|max)', l))
     if ctx.replay:
         return          # a replay re-runs one stored case; the evidence file of the last full run is kept
     ctx.write_evidence("model_checking", {
@@ -289,6 +418,7 @@ def run(ctx):
         "traces_validated_against_impl": r.checked_obs + fsumm["traces"],
         "evaluations": r.checked_obs, "values_per_type": {t: n for t, n in counts.items() if t not in ("shape", "reuse")},
         "shaped_documents_decoded": counts.get("shape", 0),
+        "values_with_a_long_text": nlong, "values_with_an_extreme_time": nxtime, "form_configurations": nconfigs,
         "reused_receiver_scenarios": counts.get("reuse", 0),
         "distinct_nontrivial": r.checked_tls, "token_lists_walked_by_automaton": r.checked_tls,
         "trace_states": r.distinct + (fr.distinct if fr else 0),
@@ -297,19 +427,29 @@ def run(ctx):
         "rejected_observations": len(rej), "rejected_token_lists": len(rtl), "known_findings_discounted": len(known),
         "violation_classes": nviol + nfviol,
         "binding_selftest_mutants_rejected": nself + nfself,
+        "deviations_rejected_by_design_check": devs,
         "library_panics_caught": summ["panics"] + fsumm.get("extra", {}).get("panics", 0),
         "types_covered": covered, "types_uncovered": UNCOVERED,
         "exhaustive": False,
         "rule": "per type: the full product of the field domains of Codec.tla if < 5000 values, else every pair of (field, value) choices with the other fields at their base value; "
                 "times: 3 instants (before 1970, sub-second part at the end of a year, leap day) x 10 zone offset classes (UTC, +01:00, -08:00, +05:30, -03:30, +05:45, -02:45, -00:30, +14:00, -12:00) + T_zero, T_east, T_west in every type that carries a time; "
+                "EXTREME times in every type that carries a time (delay, stanza.delay, xtime, forward, forward.Wrap, carbons, file.meta, history.query): the years 0, 1, 9999 (last nanosecond), -1, 10000, 53700 (a Unix time in milliseconds taken for seconds), "
+                "times whose year differs between UTC and their own zone at the edges 0 and 9999/10000 (both ways), the smallest and the largest sub-second part, the largest time.Time with a defined Unix time; "
+                "a time whose year (in UTC or in its own zone) is outside 0000-9999 cannot be written in the XEP-0082 profile: encoders and decoders may refuse it with an error, what is not refused is well-formed and comes back as the same instant, nothing panics; "
+                "LENGTH of text: every free-text slot of every table type (LongFields of Codec.tla) carries texts of 4095, 4096, 4097 and 65536 bytes, the representative slots of RepSlots (character data, attribute, hand-written child, struct-tag child, form value inside a query, ...) and the data form slots (instructions, title, field label / desc / var / single value / one value among several / option label / option value / hidden / fixed) also 65535, 65537, 65536 bytes in 32768 characters, "
+                "a long line among short lines (4096, 65535, 65536), a long line followed by short lines, 70 lines of 1000 bytes; long texts are symbols (run / lines) expanded by the driver; "
+                "forms with two fields that share one var but differ in type (24 pairs) round-trip like any other; "
                 "shapes: 22 productions x 3 positions x 2 base values per decodable type; "
-                "used receivers: per decodable type every pair of values that differ in one field (fields of at most 6 values: the whole domain on both sides) and every single-field variation before / after the two base values, decoded one after the other into the same variable, from bytes and from tokens; forms: every single operation and every Set followed by get/submit/encode resp. unmarshal/get/set/submit, on the constructed form AND on the form decoded (token stream / bytes) from a document of each of the 6 types of Form.tla (form, result, submit, cancel, no type attribute, unknown type); every pair (decode a document of type ty, operation); plus seeded random sequences of 5 operations (incl. the 12 decode operations) on 4 configurations (one without fields); "
+                "used receivers: per decodable type every pair of values that differ in one field (fields of at most 6 values: the whole domain on both sides) and every single-field variation before / after the two base values, decoded one after the other into the same variable, from bytes and from tokens; forms: every single operation and every Set followed by get/submit/encode resp. unmarshal/get/set/submit, on the constructed form AND on the form decoded (token stream / bytes) from a document of each of the 6 types of Form.tla (form, result, submit, cancel, no type attribute, unknown type); every pair (decode a document of type ty, operation); plus seeded random sequences of 5 operations (incl. the 12 decode operations); 9 configurations: 4 plain ones (one without fields), one whose defaults are at a length boundary, and 4 with AMBIGUOUS variables (two or three fields of one name whose types take different Go values, in both orders, required or not, with and without defaults; two fixed fields; two fields of one name and type) next to a field with a name of its own; "
+                "Set values include strings at the length boundaries (4096, 65535, 65536 bytes on one line, a long line among / before short lines, 70 lines of 1000 bytes) and a list holding a long string; for a variable that names several fields only what holds under every reading is demanded (no panic, Set fails if the value fits none of them and succeeds if it fits all, Get after Set, Raw of one of them, fixed never submitted, submission well-formed and of type submit), every law about the other variables of the form holds unchanged; "
                 "distinct_nontrivial = distinct abstract token lists",
         "laws": ["InDomain", "Complete", "NoFailure (no error/panic on own output; shaped documents: value or error, no panic)",
                  "WellFormed (stack automaton, no duplicate attributes)", "PathsAgree", "RoundTrip (Expect per type, normal forms stated in Codec.tla)",
                  "Reuse (decoding into a receiver that already holds a decoded value: no panic; every leaf is what the document gives, what the receiver held if the document does not mention it, or an accumulation of both)",
+                 "Kept (aliasing: a copy of the receiver taken by assignment after the first decode is unchanged by the second decode into the receiver and by encoding both; leaves reached through a pointer or a map are shared by the language and exempt: paging.Set index / count, upload.Slot urls / headers)",
                  "Form.tla: Set iff type fits, Get after Set, Raw stable, Submit ok iff required fields valued, submitted fields and values, submission has type submit, "
-                 "the form's own encoding carries its type; all of them also on decoded forms of every type; no operation panics"],
+                 "the form's own encoding carries its type; all of them also on decoded forms of every type; no operation panics (also on forms with ambiguous variables); the lines of a submitted text are the text (nothing cut at a length boundary)",
+                 "a time outside the four digit years of XEP-0082: refusal by error accepted, panic / malformed output / another instant not"],
         "samples": (summ["samples"][:1] + fsumm["samples"][:1]),
     }, assumptions=[
         "symbolic leaves: the text / address / time / integer / byte symbols of Stanza.tla; times are compared by instant (zone only for xtime)",
